@@ -21,5 +21,5 @@ func main() {
 		fmt.Fprintln(os.Stderr, "SEAM-UNAVAILABLE: the library's source is not the value crypto/rand.Reader had before its initialisation")
 		os.Exit(4)
 	}
-	schedcore.Main(func(devs []*dev.Dev) { premux.Mux.Devs = devs })
+	schedcore.Main(func(devs []*dev.Dev) { premux.Mux.Devs = devs }, premux.Mux.Idle)
 }
